@@ -37,7 +37,7 @@ CHECKS = {
         "level": "exploration",
         "phases": [
             plain("sizes", "TestSizes",
-                  {"shards": 5, "timeout": 600},
+                  {"shards": 7, "timeout": 600},
                   {"shards": 12, "timeout": 3000}),
         ],
     },
